@@ -175,6 +175,10 @@ def gen_forward_events(rng, names=6):
             f = rng.choice(cand)
             smaller = [c for c in declared if c < f]
             cs = rng.sample(smaller, rng.randint(0, min(3, len(smaller)))) if smaller else []
+            # an implementation that itself depends on a still pending declaration is the interesting case: make it frequent
+            pend_small = [c for c in pending if c < f and c not in cs]
+            if pend_small and rng.random() < 0.5:
+                cs.append(rng.choice(pend_small))
             declared.add(f)
             pending.discard(f)
             defined.add(f)
